@@ -250,6 +250,9 @@ func (s *Sched) runnable() (r []*Task, unfinished int, libBlocked int) {
 }
 
 //go:norace
+func (s *Sched) noteRelease(t *Task) { s.Log.addSched(s.Steps, t.ID, t.point) }
+
+//go:norace
 func (s *Sched) release(t *Task) {
 	t.state = stRunning
 	switch s.Mode {
@@ -340,6 +343,7 @@ func (s *Sched) Run() error {
 			s.last = t.ID
 		}
 		s.cur = t
+		s.noteRelease(t)
 		s.release(t)
 	}
 }
